@@ -225,6 +225,24 @@ class ArgGen:
                     self.stats.excluded_known["C04-F3"] += 1
                 return None
             return w, [w], ["form:symbol-word"]
+        if form == 0 and self.k(4) == 0:
+            # a plain word that has a Python / xonsh keyword as one of its components (`rock-and`, `a.or`, `--sep=or`, `1and`,
+            # `not-x`, `x/in`): only a blank-delimited `and` / `or` is an operator
+            kw = self.pick(["and", "or", "and", "or", "not", "in", "is", "if", "else", "for"])
+            sep = self.pick(["-", ".", "/", "=", ":", "+", "%", "1", "_", "--"])
+            other = "".join(self.pick("abcxyz019") for _ in range(1 + self.k(4)))
+            shape = self.k(4)
+            if shape == 0:
+                w = other + sep + kw
+            elif shape == 1:
+                w = kw + sep + other
+            elif shape == 2:
+                w = "--" + other + "=" + kw
+            else:
+                w = other + sep + kw + sep + other
+            if w[0] in "=,:+%^._" or not w[0].isalpha() and any(ch in w for ch in "=:,") and not w.startswith("--"):
+                return None
+            return w, [w], ["form:keyword-in-word"]
         if form == 0:
             w = "".join(self.pick(SAFE + PLAIN_EXTRA) for _ in range(1 + self.k(6)))
             if w[0] in "=,:+%^._" or w in ("and", "or", "not") or w[-1] == "\\" or w.startswith("~"):
